@@ -131,6 +131,9 @@ def plan(prop, tier):
                 g(D=6, P=6, ops=("submit", "save", "load", "mark"))]
         gens += [sc([G, G, G, G, "save", "load"]), sc([G, G, G, "save", "load", G, "save", "load"], D=1, P=1), sc([G, G, "clean", G, G, "save", "load"], works=(1, 3), P=2), sc([G, G, G, "mark", "save", "load", "submit"], lean=False),
                  sc([G, G, G, "clean", G, "save", "load", G], D=2, P=2, works=(1,), ties=True),
+                 # the part of the chain that a Load keeps in memory starts exactly on a 1000-header file boundary
+                 sc([G, G, G, G, "save", "load"], D=2, P=2, S=(500,), shape=(0, 1, 2, 3)),
+                 sc([G, G, "save", "load", G, G, "save", "load"], D=2, P=2, S=(500,), shape=(0, 1, 2, 3)),
                  # Save twice and Load twice with nothing in between; Load after more headers (they are gone, and arrive again)
                  sc([G, G, G, "save", "save", "load", "load", G]), sc([G, G, "save", G, G, "load", G, G, "save", "load"], D=2, P=2),
                  # a store written before branches existed (version-0 files), or an empty store, is loaded first
@@ -180,6 +183,10 @@ def plan(prop, tier):
         gens = [g(D=1, P=1, ops=maint_ops, flags=pf, S=(1, 3)), g(D=2, P=2, ops=maint_ops, flags=pf, works=(1, 3), big=500),
                 g(D=6, P=6, ops=("submit", "mark", "clean", "save", "load"), flags=pf),
                 sc([G, G, G, G, "clean", "save", "load"], D=1, P=1, flags=pf),
+                # the part of the chain that a Load keeps in memory starts exactly on a 1000-header file boundary
+                sc([G, G, G, G, "save", "load"], D=2, P=2, S=(500,), flags=pf, shape=(0, 1, 2, 3)),
+                sc([G, G, G, G, "save", "load", "clean"], D=2, P=2, S=(500,), flags=pf, shape=(0, 1, 2, 2)),
+                sc([G, G, "save", "load", G, G, "save", "load"], D=2, P=2, S=(500,), flags=pf, shape=(0, 1, 2, 3)),
                 sc([G, G, "clean", G, G], D=2, P=1, flags=pf, works=(1, 3)),
                 sc([G, G, G, G, "mark", "clean"], flags=pf),
                 sc([G, G, G, G, "clean"], flags=pf, works=(1,), ties=True)]
